@@ -205,8 +205,25 @@ func (r *Runtime) SetRawMetatable(v Value, meta *Table) {
 
 func (r *Runtime) addFinalizer(ref luagc.Value, flags luagc.MarkFlags) {
 	if flags != 0 {
-		r.weakRefPool.Mark(ref, flags)
+		r.markingPool(ref).Mark(ref, flags)
 	}
+}
+
+// markingPool returns the pool in which ref is to be marked.  A value belongs
+// to the context in which it was first marked, so if the pool of an enclosing
+// context already looks after ref, it is marked again there.  Otherwise it is
+// marked in the pool of the current context.
+func (r *Runtime) markingPool(ref luagc.Value) luagc.Pool {
+	pool := r.weakRefPool
+	for m := r.parent; m != nil; m = m.parent {
+		if m.weakRefPool != pool {
+			pool = m.weakRefPool
+			if pool.Marked(ref) {
+				return pool
+			}
+		}
+	}
+	return r.weakRefPool
 }
 
 func (r *Runtime) runPendingFinalizers() {
